@@ -454,7 +454,11 @@ func (st *State) snapshot() *State {
 	for k, v := range st.Ghost {
 		n.Ghost[k] = v
 	}
-	n.Maps = st.Maps
+	// map states are replaced, never mutated, on update: a shallow copy of the table keeps the old states
+	n.Maps = make(map[*Cell]*MapState, len(st.Maps))
+	for k, v := range st.Maps {
+		n.Maps[k] = v
+	}
 	return n
 }
 
@@ -475,9 +479,17 @@ func (ex *Exec) builtin(st *State, fr *Frame, x *ssa.Call, b *ssa.Builtin) bool 
 			fr.Vals[x] = Scalar{v.Len}
 		case ArrayV:
 			fr.Vals[x] = Scalar{ex.idxConst(v.Typ.Len())}
+		case MapV:
+			if ms, _, ok := ex.mapState(st, v, "len"); ok {
+				fr.Vals[x] = Scalar{ms.Size}
+			} else {
+				fr.Vals[x] = Scalar{ex.idxConst(0)}
+			}
 		default:
 			ex.reject("len of %s", valString(args[0]))
 		}
+	case "delete":
+		ex.mapDelete(st, args[0], args[1])
 	case "cap":
 		switch v := args[0].(type) {
 		case SliceV:
